@@ -99,6 +99,15 @@ Proof.
   apply not_decimal_of_atoi. intros z Hz. vm_compute in Hz. inversion Hz. reflexivity.
 Qed.
 
+Example hdr_length_required_nonvacuous :
+  exists fs, headers blk_no_length fs [97] /\
+             (forall v n, field key_length fs = Some v -> ~ decimal v n).
+Proof.
+  destruct hdr_length_missing_nonvacuous as [fs [Hh [Hf _]]]. exists fs. split; [exact Hh|].
+  intros v n Hv [sign [ds [Hd [Hne _]]]]. destruct Hf as [Hf|Hf]; rewrite Hf in Hv; [discriminate|].
+  inversion Hv; subst v. destruct sign; destruct ds; try discriminate. congruence.
+Qed.
+
 (* more values that are not non-negative decimals: hexadecimal, an inner space, 2^63, a bare sign,
    digits with a trailing letter; and "-0", "+7", "007" ARE decimals (Atoi accepts them) *)
 Example hdr_length_values :
